@@ -2105,9 +2105,37 @@ func boolReturnsAt(p *Prog, fn *ssa.Function, atom string, v int64) (canTrue, ca
 				canTrue, canFalse = true, true // a computed result: either
 			}
 		case *ssa.If:
-			if cmp, ok := CanonCmp(BuildExpr(p, t.Cond, nil)); ok && cmp.Mentions(atom) {
+			// a condition that reaches the branch as a phi (`case a && b:` is evaluated as a value) is the
+			// incoming value of the edge we came along
+			var cv ssa.Value = t.Cond
+			neg := false
+			for i := 0; i < 4; i++ {
+				c2, pos := condStrip(cv)
+				if !pos {
+					neg = !neg
+				}
+				cv = c2
+				ph, isPhi := cv.(*ssa.Phi)
+				if !isPhi || ph.Block() != b || prev == nil {
+					break
+				}
+				for j, pr := range b.Preds {
+					if pr == prev {
+						cv = ph.Edges[j]
+					}
+				}
+			}
+			if k, isC := constBool(cv); isC {
+				if k != neg {
+					walk(b.Succs[0], b, depth+1)
+				} else {
+					walk(b.Succs[1], b, depth+1)
+				}
+				return
+			}
+			if cmp, ok := CanonCmp(BuildExpr(p, cv, nil)); ok && cmp.Mentions(atom) {
 				if val, ok := evalLinAt(cmp, atom, v); ok {
-					if val {
+					if val != neg {
 						walk(b.Succs[0], b, depth+1)
 					} else {
 						walk(b.Succs[1], b, depth+1)
